@@ -468,7 +468,7 @@ def temporal_case(ctx, rng, idx):
         cfg.time_pool = [0, 7, 2**53 + 1, 2**63 - 1, 2**63, 2**64 + 5, 10**30]
         ctx.event("huge-time-stamps")
     try:
-        live, _ = history.run_history(NullCtx(), rng, cfg, battery_every=0)
+        live, _ = history.run_history(history.BuildCtx(ctx, "C09"), rng, cfg, battery_every=0)
     except Exception as e:
         ctx.note("build-failed:" + type(e).__name__)
         return
